@@ -614,7 +614,7 @@ def run(tier="quick"):
     rep.not_decided = ["behaviour of arbitrary alloc/free histories beyond push/pop symmetry (double free is a caller error)"]
     for m in models:
         rep.configs.append(m.config)
-        rules(rep, m)
+        common.run_rules(rep, m, rules)
     if tier == "thorough":
         second_opinion(rep, models[0])
     return rep.finish()
